@@ -118,6 +118,14 @@ func c13ValueOps(t byte) []op {
 			}
 			return ra.calls
 		}},
+		{"binary.Default.Decode+wire.*ToSlice", c13C0, func(msg []byte) int {
+			ra := &countAt{b: msg}
+			v, err := tbinary.Default.Decode(ra, wire.Type(t))
+			if err == nil {
+				toSlices(v, 0)
+			}
+			return ra.calls
+		}},
 		{"stream.Reader generic read", c13C0, func(msg []byte) int {
 			cr := wb.NewChunkReader(msg, wb.ChunkWhole, 1)
 			sr := tbinary.Default.Reader(cr)
@@ -140,6 +148,39 @@ func c13ValueOps(t byte) []op {
 			sr.Close()
 			return cr.Calls + cr.Seeks
 		}},
+	}
+}
+
+// toSlices materialises a decoded value with thriftrw's own helpers, which
+// size their result from Size().
+func toSlices(v wire.Value, depth int) {
+	if depth > 16 {
+		return
+	}
+	switch v.Type() {
+	case wire.TList:
+		l := v.GetList()
+		for _, x := range wire.ValueListToSlice(l) {
+			toSlices(x, depth+1)
+		}
+		l.Close()
+	case wire.TSet:
+		l := v.GetSet()
+		for _, x := range wire.ValueListToSlice(l) {
+			toSlices(x, depth+1)
+		}
+		l.Close()
+	case wire.TMap:
+		m := v.GetMap()
+		for _, it := range wire.MapItemListToSlice(m) {
+			toSlices(it.Key, depth+1)
+			toSlices(it.Value, depth+1)
+		}
+		m.Close()
+	case wire.TStruct:
+		for _, f := range v.GetStruct().Fields {
+			toSlices(f.Value, depth+1)
+		}
 	}
 }
 
